@@ -2,6 +2,27 @@
 
 package main
 
+import "fmt"
+
 // installServeHooks wires the verif-tagged schedule/trace points of the emulator to the
 // control channel of this child (see sched.go).
 func installServeHooks() { installVerifHooks() }
+
+func setSaveStages(dir, base string) { saveStagesDir, persistBase = dir, base }
+
+// controlLine handles "arm <point> <id>" / "release <point> <id>" from the parent (id 0 = every client).
+func controlLine(line string) {
+	var verb, point string
+	var id int64
+	if n, _ := fmt.Sscanf(line, "%s %s %d", &verb, &point, &id); n < 2 {
+		return
+	}
+	switch verb {
+	case "arm":
+		gateArm(point, id)
+		fmt.Println("ARMED", point, id)
+	case "release":
+		gateRelease(point, id)
+		fmt.Println("RELEASED", point, id)
+	}
+}
